@@ -133,8 +133,10 @@ func body(p pathDef, v int) string {
 	return fmt.Sprintf("package %s\n\nvar X = %d\n\nfunc Get(cur realm) int { X += %d; return X }\n", p.n, v, v)
 }
 
+// test files deliberately import nothing: type-checking an import re-checks the imported package from source on
+// every transaction ("testing" drags in a large part of the stdlib: ~50 ms per tx).
 func testFile(p pathDef) string {
-	return fmt.Sprintf("package %s\n\nimport \"testing\"\n\nfunc TestX(t *testing.T) {\n\tif X == 0 {\n\t\tt.Fatal(\"zero\")\n\t}\n}\n", p.n)
+	return fmt.Sprintf("package %s\n\nvar testOnly = X + 1\n\nfunc testHelper() int { return testOnly }\n", p.n)
 }
 
 const fileTest = "package main\n\nfunc main() {\n\tprintln(\"ok\")\n}\n\n// Output:\n// ok\n"
@@ -159,7 +161,7 @@ var variants = []variantDef{
 		return fmt.Sprintf("module = \"gno.land/r/zzz/other\"\ngno = \"0.9\"\n\n[addpkg]\n  creator = %q\n  height = 999\n", "g1jg8mtutu9khhfwc4nxmuhcpftf0pajdhfvsqf5")
 	}, gno: func(p pathDef) map[string]string { return map[string]string{"a.gno": body(p, 6)} }},
 	{id: "testonly", hasTests: true, reject: "no production .gno file", gnomod: modHead, gno: func(p pathDef) map[string]string {
-		return map[string]string{"a_test.gno": "package " + p.n + "\n\nimport \"testing\"\n\nfunc TestY(t *testing.T) {}\n"}
+		return map[string]string{"a_test.gno": "package " + p.n + "\n\nvar testOnly = 1\n"}
 	}},
 	{id: "draft", reject: "draft after genesis", gnomod: func(p pathDef) string { return modHead(p) + "draft = true\n" },
 		gno: func(p pathDef) map[string]string { return map[string]string{"a.gno": body(p, 7)} }},
@@ -813,15 +815,18 @@ func main() {
 	col := []string{"r/T"}
 	// "core": every variant x both deployers on the colliding path
 	core := product(col, allVariantIDs(), both)
-	// "wide": core + every other well-formed shape x {pub, priv} x both deployers + every malformed shape x {pub, priv} x A
+	// "wide": core + every other well-formed shape x {pub, priv} x both deployers + every malformed shape x {pub (+priv in thorough)} x A
+	mv := []string{"pub"}
+	if r.Thorough() {
+		mv = []string{"pub", "priv"}
+	}
 	wide := append(append(product(col, allVariantIDs(), both),
 		product(shapeIDs(func(s shape) bool { return s.valid && s.id != "r/T" }), []string{"pub", "priv"}, both)...),
-		product(shapeIDs(func(s shape) bool { return !s.valid }), []string{"pub", "priv"}, []int{0})...)
+		product(shapeIDs(func(s shape) bool { return !s.valid }), mv, []int{0})...)
 	// "full": the whole product (rejected-ops sweep at the initial state)
 	full := product(shapeIDs(func(shape) bool { return true }), allVariantIDs(), both)
 	// "reduced": deeper histories on the colliding path
-	red := append(product(col, []string{"priv", "priv2"}, both), op{shapeIdx("r/T"), varIdx("pub"), 0}, op{shapeIdx("r/T"), varIdx("pubtests"), 1},
-		op{shapeIdx("r/T"), varIdx("testonly"), 0}, op{shapeIdx("r/T"), varIdx("draft"), 1})
+	red := append(product(col, []string{"priv", "priv2"}, both), op{shapeIdx("r/T"), varIdx("pub"), 0}, op{shapeIdx("r/T"), varIdx("pubtests"), 1})
 
 	var groups []*group
 	dCore, dWide, dRed := 3, 1, 4
@@ -829,21 +834,30 @@ func main() {
 		dCore, dWide, dRed = 4, 2, 5
 	}
 	for ci, cfg := range cfgs {
-		gc := enumerate(cfg, core, dCore, "core")
+		// quick: the third configuration (no registry realm at all) behaves like the second; it gets a shallower core only
+		d := dCore
+		if r.Quick() && ci == 2 {
+			d = 2
+		}
+		gc := enumerate(cfg, core, d, "core")
 		// same-block variants of every core sequence of length >= 2
-		for _, j := range append([]job{}, gc.jobs...) {
-			if len(j.seq) >= 2 {
-				jb := j
-				jb.oneBlock = true
-				gc.jobs = append(gc.jobs, jb)
+		if r.Thorough() || ci == 1 {
+			for _, j := range append([]job{}, gc.jobs...) {
+				if len(j.seq) >= 2 {
+					jb := j
+					jb.oneBlock = true
+					gc.jobs = append(gc.jobs, jb)
+				}
 			}
 		}
 		gc.restart = true
-		groups = append(groups, gc, enumerate(cfg, wide, dWide, "wide"))
-		if ci < 2 {
-			groups = append(groups, enumerate(cfg, red, dRed, "reduced"))
+		groups = append(groups, gc)
+		if r.Thorough() || ci < 2 {
+			groups = append(groups, enumerate(cfg, wide, dWide, "wide"), enumerate(cfg, red, dRed, "reduced"))
 		}
-		groups = append(groups, enumerate(cfg, full, 0, "full"))
+		if r.Thorough() || ci == 0 {
+			groups = append(groups, enumerate(cfg, full, 0, "full"))
+		}
 	}
 	// split long chains so that all cores are used (node ownership of the rejected-ops sweeps is static)
 	var split []*group
@@ -885,7 +899,9 @@ func main() {
 	if os.Getenv("C12_ONLYMUT") == "" {
 		r.ParFor(len(groups), func(i int) { groups[i].run() })
 	}
-	mutationPart()
+	if os.Getenv("C12_NOMUT") == "" {
+		mutationPart()
+	}
 	if os.Getenv("C12_PROF") != "" {
 		pprof.StopCPUProfile()
 	}
@@ -897,7 +913,7 @@ func main() {
 		"registry = purpose-built realm at gno.land/r/sys/names exposing IsAuthorizedAddressForNamespace (the interface the keeper calls); the examples/ realm needs the whole govdao tree",
 		"private packages may be redeployed (by anyone when no registry is configured): the statement protects public entries only",
 	}
-	r.Finish(fmt.Sprintf("state graph of MsgAddPackage histories: <=%d accepted deployments over the 22-op alphabet on the colliding path (+ the same sequences inside one block), <=%d over the %d-op path-menu alphabet, <=%d over an 8-op reduced alphabet, the full %d-op product at the initial state; every model-rejected op of the alphabet delivered at every visited state; x3 registry configurations; restart of 3 chains; + the /p/ mutation menu (25 statements x 5 forms, each first on a fresh /p/ package, then all in sequence both ways, + an escalation scenario); distinct = distinct (alphabet, config, model state) nodes + same-block sequences + mutation cases",
+	r.Finish(fmt.Sprintf("state graph of MsgAddPackage histories: <=%d accepted deployments over the 22-op alphabet on the colliding path (+ the same sequences inside one block), <=%d over the %d-op path-menu alphabet, <=%d over a 6-op reduced alphabet, the full %d-op product at the initial state; every model-rejected op of the alphabet delivered at every visited state; x3 registry configurations (quick: the no-registry-realm configuration only gets the colliding-path alphabet to depth 2, the full product runs under the enforcing configuration only); restart of 3 chains; + the /p/ mutation menu (25 statements x 5 forms, each first on a fresh /p/ package, then all in sequence both ways, + an escalation scenario); distinct = distinct (alphabet, config, model state) nodes + same-block sequences + mutation cases",
 		dCore, dWide, len(wide), dRed, len(full)),
 		true, map[string]any{"states": nStatesSeen.Load(), "transitions": nTx.Load(), "traces_validated_against_impl": nTx.Load(),
 			"observation_checks": nChecks.Load(), "chains": nChains.Load(), "histories": njobs, "depth": map[string]int{"core": dCore, "wide": dWide, "reduced": dRed}})
